@@ -66,6 +66,9 @@ def render_step(i, step):
         body.append("    @icontract.require(p2_{0})\n    def m2(self, x=1):\n        return x\n".format(name))
         # ... and a second contracted property (taken over under the name p by the 'alias_p2' option of later classes)
         body.append("    @property\n    @icontract.ensure(pq_{0})\n    def p2(self):\n        return 2\n".format(name))
+        if i > 0:
+            # a further root also has a contracted property r, which X0 lacks (taken over as  r = X0.p2  by the 'alias_r' option)
+            body.append("    @property\n    @icontract.ensure(lambda self, result: pq_{0}(self))\n    def r(self):\n        return 3\n".format(name))
     m = step["m"]
     if m == "alias_m2":
         # the root's OTHER method taken over under the name m, which the bases define with contracts of their own
@@ -92,6 +95,9 @@ def render_step(i, step):
         body.append("    @X0.p.setter\n    def p(self, value):\n        pass\n")
     elif step.get("p", "-").startswith("extset@"):
         body.append("    @{}.p.setter\n    def p(self, value):\n        pass\n".format(step["p"].split("@")[1]))
+    elif step.get("p", "-") == "alias_r":
+        # the root's second property under a name which the root itself lacks but another base defines (with contracts)
+        body.append("    r = X0.p2\n")
     elif step.get("p", "-") == "alias_p2":
         # the root's OTHER property taken over under the name p, which the bases define with contracts of their own
         body.append("    p = X0.p2\n")
@@ -299,7 +305,7 @@ def check_history(history, acc, tier):
             src_cls = step[fld].split("@")[1]
             feats[fld] = step[fld].split("@")[0] + "@"
             feats["lattice"] = True
-    if step.get("p") in ("extset_root", "alias_p2", "prop_of_m2") or step.get("m") in ("alias", "alias_m2", "alias_pget") or feats.get("lattice"):
+    if step.get("p") in ("extset_root", "alias_p2", "prop_of_m2", "alias_r") or step.get("m") in ("alias", "alias_m2", "alias_pget") or feats.get("lattice"):
         # (the feature names say "root"; in the lattice family they mean the class whose member is re-used)
         feats["reuses_root_member"] = True
         anc, todo = set(), list(step.get("bases", []))
@@ -359,6 +365,7 @@ def lattice_histories():
                 for k in ("X0", "X1"):
                     yield [root0, root1] + mid + [{"op": "class", "bases": b4, "inv": "-", "m": "alias@" + k, "p": "-"}]
                     yield [root0, root1] + mid + [{"op": "class", "bases": b4, "inv": "-", "m": "-", "p": "extset@" + k}]
+                yield [root0, root1] + mid + [{"op": "class", "bases": b4, "inv": "-", "m": "-", "p": "alias_r"}]
 
 
 def check_lattice(acc, part, nparts):
